@@ -92,7 +92,9 @@ def parsePoly (s : String) : Option Poly :=
   let body := sdrop s 2
   if s.startsWith "r:" then ((splitNonEmpty body ";").mapM parseID).map Poly.paths
   else if s.startsWith "l:" then
-    ((splitNonEmpty body "|").mapM fun l => (splitNonEmpty l ";").mapM parseLL).map Poly.loops
+    -- a loop marked `!` does not survive E7 quantisation (S2 oracle, `lastMarshalledLoopIsValid`): `FromS2Polygon`
+    -- drops it, so the model never sees it
+    (((splitNonEmpty body "|").filter fun l => !l.startsWith "!").mapM fun l => (splitNonEmpty l ";").mapM parseLL).map Poly.loops
   else none
 
 def parseMember (s : String) : Option FMember :=
